@@ -366,6 +366,12 @@ FastForward
 // hashgraph from a Block and associated Frame.
 func (c *core) fastForward(block *hg.Block, frame *hg.Frame) error {
 	c.logger.Debug("Fast Forward", frame.Round)
+
+	// the Frame comes from another node: refuse it if it is malformed
+	if err := frame.Validate(); err != nil {
+		return err
+	}
+
 	peerSet := peers.NewPeerSet(frame.Peers)
 
 	// Check Block Signatures
